@@ -17,3 +17,32 @@ import (
 func VerifC15ExecuteTx(ccc consensus.ChainConsensusCluster, bs *state.BlockState, tx types.Transaction, bi *types.BlockHeaderInfo) error {
 	return executeTx(context.Background(), ccc, nil, bs, tx, bi, contract.ChainService)
 }
+
+// VerifC15AddBlock is the real ChainService.addBlock: with a block state it is what the chain manager does for a
+// block of the node's own block factory (message.AddBlock with Bstate), without one for a block from the network.
+func VerifC15AddBlock(cs *ChainService, blk *types.Block, bstate *state.BlockState, peer types.PeerID) error {
+	return cs.addBlock(blk, bstate, peer)
+}
+
+// VerifC15SetSkipMempool: sign verification without mempool lookups (no mempool actor in the harness).
+func VerifC15SetSkipMempool(cs *ChainService, v bool) { cs.setSkipMempool(v) }
+
+// VerifC15HasReceipts reports whether receipts are stored for the block (written after a successful execution of a
+// block that carries transactions).
+func VerifC15HasReceipts(cs *ChainService, blockHash []byte, no types.BlockNo) bool {
+	return cs.cdb.checkExistReceipts(blockHash, no)
+}
+
+// The query handlers of the chain worker (what the RPC layer reaches): the property's "observe_at".
+func VerifC15QueryVotes(cs *ChainService, id string, n uint32) (*types.VoteList, error) {
+	return cs.getVotes(id, n)
+}
+func VerifC15QueryAccountVote(cs *ChainService, addr []byte) (*types.AccountVoteInfo, error) {
+	return cs.getAccountVote(addr)
+}
+func VerifC15QueryStaking(cs *ChainService, addr []byte) (*types.Staking, error) {
+	return cs.getStaking(addr)
+}
+func VerifC15QueryNameInfo(cs *ChainService, name string, no types.BlockNo) (*types.NameInfo, error) {
+	return cs.getNameInfo(name, no)
+}
